@@ -341,7 +341,12 @@ def monitor(case, o):
             per.setdefault(m, []).append(rid)
         for m, rids in per.items():
             rids = sorted(rids, key=lambda r: start_step.get(r, 0))
-            if len(rids) > 1 and not api_expired_before(o, m, start_step.get(rids[1], 0)):
+            if len(rids) < 2:
+                continue
+            second = start_step.get(rids[1], 0)
+            failed_before = any(i <= second and len(e) > 2 and ((e[0] in ("wait", "ping") and e[2] == "fail") or (e[0] == "newserver" and e[2] < 0))
+                                for i, e in flat_events(o))
+            if not failed_before and not api_expired_before(o, m, second):
                 v["C11"].append(({"class": "not-reused"}, "model %d got runners %s although every request was compatible with the first one, nothing failed, "
                                  "nothing expired and there was room for every model" % (m, rids)))
     return v
